@@ -27,11 +27,19 @@
 
 #include "snoopy.h"
 
+#include <errno.h>
 #include <limits.h>
 #include <pwd.h>
 #include <stdio.h>
 #include <stdlib.h>
 #include <unistd.h>
+
+
+
+/*
+ * Lookup buffer is doubled up to this size when an entry does not fit
+ */
+#define SNOOPY_UTIL_PWD_LOOKUP_BUF_SIZE_MAX 1048576
 
 
 
@@ -54,6 +62,7 @@ char * snoopy_util_pwd_convertUidToUsername (uid_t uid)
     char          *buffpwd_uid = NULL;
     long           buffpwdsize_uid = 0;
     char          *username = NULL;
+    int            lookupStatus = 0;
 
 
     /* Allocate memory */
@@ -75,8 +84,20 @@ char * snoopy_util_pwd_convertUidToUsername (uid_t uid)
     username[0] = '\0';
 
 
-    /* Try uid->username conversion */
-    if (0 != getpwuid_r(uid, &pwd, buffpwd_uid, buffpwdsize_uid, &pwd_uid)) {
+    /* Try uid->username conversion - an entry that does not fit (e.g. a long comment field) is retried with a larger buffer */
+    while (ERANGE == (lookupStatus = getpwuid_r(uid, &pwd, buffpwd_uid, buffpwdsize_uid, &pwd_uid))) {
+        char *biggerBuf;
+        if (buffpwdsize_uid >= SNOOPY_UTIL_PWD_LOOKUP_BUF_SIZE_MAX) {
+            break;
+        }
+        buffpwdsize_uid *= 2;
+        biggerBuf = realloc(buffpwd_uid, buffpwdsize_uid);
+        if (NULL == biggerBuf) {
+            break;
+        }
+        buffpwd_uid = biggerBuf;
+    }
+    if (0 != lookupStatus) {
         free(buffpwd_uid);
         free(username);
         return NULL;
